@@ -131,6 +131,12 @@ def reference(lines: list[str], initial: dict):
             continue
         kind, rest = m.group(1).strip(), m.group(2).strip()
         out.append(None)
+        if kind != "define":
+            # comments are removed before directives are read; the name of #ifdef/#ifndef/#undef is one identifier
+            rest = re.sub(r"/\*.*?\*/|//.*$", " ", rest).strip()
+            if kind in ("ifdef", "ifndef", "undef"):
+                w_ = re.match(r"[A-Za-z_]\w*", rest)
+                rest = w_.group(0) if w_ else rest
         if kind in ("if", "ifdef", "ifndef"):
             parent = cur_active
             if kind == "if":
@@ -205,6 +211,29 @@ def gen_block(rnd, depth, budget):
             lines.append("#endif")
     lines.append(f"integer :: t{rnd.randint(0, 99)}")
     return lines
+
+
+def respell(lines, rnd):
+    """the same program with blanks and tabs where a C preprocessor allows them, and comments after the names and
+    conditions of the conditional directives (macro bodies are left alone: a body is taken character for character)"""
+    out = []
+    for ln in lines:
+        m = re.match(r"#(if(?=[ (])|ifdef|ifndef|elif|else|endif|define|undef)(.*)$", ln)
+        if not m or rnd.random() < 0.5:
+            out.append(ln)
+            continue
+        kind, rest = m.group(1), m.group(2)
+        lead = rnd.choice(["", "", " ", "\t", "  "])
+        if rest[:1] == " " and rnd.random() < 0.5:
+            rest = rnd.choice(["\t", "  ", " \t"]) + rest[1:]
+        if kind == "define":
+            parts = rest.split(" ")
+            if len(parts) == 3 and rnd.random() < 0.5:     # '', name, body
+                rest = parts[0] + rest[:0] + rnd.choice([" ", "\t"]).join(["", parts[1], parts[2]])
+        elif rnd.random() < 0.4:
+            rest = rest + rnd.choice([" /* note */", " // note", "\t/* A B */", " /* defined(C) */"])
+        out.append("#" + lead + kind + rest)
+    return out
 
 
 def small_exhaustive():
@@ -286,6 +315,15 @@ def bounded_compare(tier: str, seed: int):
         n += 1
         w = compare(lines, init)
         if w:
+            return w, n
+    rnd2 = random.Random(seed + 77)
+    for _ in range(3000 if tier == "thorough" else 800):
+        lines = respell(gen_block(rnd2, 3, [rnd2.randint(2, 9)]), rnd2)
+        init = rnd2.choice(INITIALS)
+        n += 1
+        w = compare(lines, init)
+        if w:
+            w["spelling"] = "blanks, tabs and comments inside directives"
             return w, n
     return None, n
 
